@@ -827,7 +827,10 @@ def storage_family(run, replay=None):
                                        'raw keys contain no colon (the file store strips colons from file names; the pairing database never produces one)',
                                        'the monitor is the reference map itself: returned bytes are compared with every value written in the case and reported as its token'],
                           rule_text='TLC-generated histories of Set / Get / Delete / listing / SaveEntity / EntityWithName / DeleteEntity / Entities / Reopen over up to 3 keys and 3 entity names with values of length 0, 5, 40, 4096 (one word per model transition, all words up to the stated length on one key and one name, the attack history of the missing truncation, simulation); distinct = abstract history; non-trivial = contains an overwrite or a delete followed by a read',
-                          nontrivial=lambda b: len([s for s in b['steps'] if s.get('op') in ('Set', 'SaveEntity', 'Delete', 'DeleteEntity')]) >= 2)
+                          nontrivial=lambda b: len([s for s in b['steps'] if s.get('op') in ('Set', 'SaveEntity', 'Delete', 'DeleteEntity')]) >= 2,
+                          pseudo=[dict(id=3000000, kind='concurrent-writers', steps=[dict(op='ConcurrentSets')])],
+                          fpfun=lambda rule, b, line: ('%s/ConcurrentSets' % rule) if line.get('ev') == 'conc' else step_fingerprint(rule, b, line),
+                          extra_cov=lambda lines, behs: dict(concurrent_writer_rounds=sum(1 for x in lines if x.get('ev') == 'conc')))
 
 
 @register('C19')
@@ -1023,7 +1026,7 @@ def charstack_gen(run):
     kinds = ["e1", "e2", "wo", "missing"]
     lists = [[dict(a='ReadList', tok='none', ids=list(c))] for k in range(1, (4 if thorough else 3) + 1) for c in itertools.product(kinds, repeat=k)]
     attacks = []
-    for perms, g in ((["pw"], "status_in_every_entry"), (["pr"], "write_needs_pw"), (["pr", "pw"], "subscribe_needs_ev")):
+    for perms, g in ((["pw"], "status_in_every_entry"), (["pr"], "write_needs_pw"), (["pr", "pw"], "subscribe_needs_ev"), (["pr", "pw"], "subscription_per_accessory_and_id")):
         a = run.generate('CharStackGen', cfgtext=cs_cfg(perms, 2, weak=[g], tail=t + 'INVARIANT NoAttack\nVIEW AttackView'), expect_violation=True)
         if not a:
             raise ToolTrouble('no attack word for guard %s' % g)
@@ -1135,6 +1138,8 @@ def honest_family(run, replay=None):
         for i in range(n):
             if i % 9 == 7:
                 runs.append([dict(code='wrong', mode='patient', nreq=0)])
+            elif i % 9 == 6:
+                runs.append([dict(code='retry', mode='patient', nreq=1)])
             elif i % 9 == 8:
                 runs.append([dict(code='right', mode='immediate', nreq=1)])
             elif i % 18 == 5:
@@ -1217,7 +1222,7 @@ def tlv8_family(run, replay=None):
 # TLV8 struct marshalling (C17)
 # =====================================================================================================
 
-TLV_SHAPES = ["leafAll", "small", "nested", "withLists", "lists2", "onlyFloat", "onlyI64", "rtp.SetupEndpoints", "rtp.SetupEndpointsResponse", "rtp.StreamConfiguration",
+TLV_SHAPES = ["leafAll", "small", "nested", "withLists", "lists2", "lists3", "onlyFloat", "onlyI64", "rtp.SetupEndpoints", "rtp.SetupEndpointsResponse", "rtp.StreamConfiguration",
               "rtp.VideoStreamConfiguration", "rtp.AudioStreamConfiguration", "rtp.StreamingStatus", "rtp.Configuration"]
 
 
